@@ -218,6 +218,17 @@ static void bfs(int depth)
                     SEQX_CHECK(a == b, "model-mismatch", "after step %zu (%s): real [%s] != reference [%s]  (legend: S=source possible/requested, T=token possible/requested, C=callback runs, r=request_stop result)",
                         i + 1, opstr(all[i]).c_str(), a.c_str(), b.c_str());
                 }
+                // probe suffix (histories are merged on the reference state): request stop through
+                // every live source and look at every observable once more
+                for (int i = 0; i < 2; ++i)
+                {
+                    Op probe{REQ_STOP, i, 0};
+                    if (!ref.enabled(probe)) continue;
+                    real.apply(probe);
+                    ref.apply(probe);
+                    std::string a = real.observe(), b = ref.observe();
+                    SEQX_CHECK(a == b, "model-mismatch", "probe %s after the history: real [%s] != reference [%s]", opstr(probe).c_str(), a.c_str(), b.c_str());
+                }
             }
             Ref nxt = base;
             nxt.apply(op);
